@@ -44,6 +44,9 @@ type JobOptions struct {
 	InstrBudget   int64   `json:"instr_budget"`
 	Witnesses     int     `json:"witnesses"`
 	FuncBudgetS   float64 `json:"func_budget_s"`
+	ShardN        int     `json:"shard_n,omitempty"` // path-space sharding of the job's functions (see interp.Options)
+	ShardI        int     `json:"shard_i,omitempty"`
+	ShardDepth    int     `json:"shard_depth,omitempty"`
 }
 
 type FuncResult struct {
@@ -116,7 +119,8 @@ func RunJob(j *Job) *JobResult {
 		}
 		e, err := interp.New(l.Prog, interp.Options{LoopBudget: j.Opt.LoopBudget, AllocLimit: j.Opt.AllocLimit,
 			TimeoutMs: j.Opt.TimeoutMs, MaxPaths: j.Opt.MaxPaths, CheckRewrites: j.Opt.CheckRewrites,
-			EnumCap: j.Opt.EnumCap, InstrBudget: j.Opt.InstrBudget, FuncBudgetS: j.Opt.FuncBudgetS})
+			EnumCap: j.Opt.EnumCap, InstrBudget: j.Opt.InstrBudget, FuncBudgetS: j.Opt.FuncBudgetS,
+			ShardN: j.Opt.ShardN, ShardI: j.Opt.ShardI, ShardDepth: j.Opt.ShardDepth})
 		if err != nil {
 			return err
 		}
